@@ -946,6 +946,13 @@ func (ds *AnySource) PrepareRun(Npresamples int, Nsamples int) error {
 	ds.abortSelf = make(chan struct{})
 	ds.nextBlock = make(chan *dataBlock)
 
+	// Sources that read all channels at once and never set a sub-frame rate (Triangle, ROACH, Erroring) count
+	// sub-frames at the frame rate. With 0 divisions every LJH 2.2 record would get sub-frame count 0,
+	// that is, lose its frame number.
+	if ds.subframeDivisions < 1 {
+		ds.subframeDivisions = 1
+	}
+
 	// Create a TriggerBroker to handle secondary triggering
 	ds.broker = NewTriggerBroker(ds.nchan)
 
